@@ -281,14 +281,14 @@ def _simple_e1(pid, tier, seed, only, specs, title, bounds, **kw):
 
 def check_c06(pid, tier, seed, only):
     if tier == "quick":
-        ns = list(range(1, 65)) + [96, 100, 120, 128, 243, 256]
+        ns = list(range(1, 65)) + [96, 100, 120, 128]   # 243, 256 and shape representatives above 164 took ~300 s per (double-size) query: thorough only
     else:
         ns = sorted(set(range(1, 129)) | {144, 160, 180, 192, 200, 216, 240, 243, 250, 256, 288, 320, 343, 360, 384, 400, 480, 500, 512})
     exe, _, _ = C.build_symlift()
     if exe:
-        reps, _bad = shape_lens(exe, tier, 200, 300)
+        reps, _bad = shape_lens(exe, tier, 164, 300)
         ns = sorted(set(ns) | {n for n in reps if n >= 1})
-    specs = [f"c06:n={n}" for n in ns] + [f"c06:n={n}:planner=scalar" for n in (1, 2, 7, 30, 37, 59, 64)]
+    specs = [f"c06:n={n}" for n in ns] + [f"c06:n={n}:planner=scalar" for n in (1, 2, 7, 30, 64)]
     res, _ = _simple_e1(pid, tier, seed, only, specs,
                         "one planner plans both directions (both planning orders): inv(fwd(x)) = n*x, fwd(inv(x)) = n*x, inv(x) = conj(fwd(conj x)) for all x; oracle-free, both sides are symbolic executions",
                         {"lengths": f"{len(ns)} lengths, max {max(ns)}", "entry_points": "process_with_scratch, process_immutable_with_scratch", "planners": "FftPlanner::<Sym>, FftPlannerScalar::<Sym>"})
